@@ -161,7 +161,13 @@ def judge(case, r, viol, what, obs):
         okk = (not fd and len(d[4]) == 8 and d[4][0] == 19) or (fd and len(d[4]) >= 12 and (d[4][0] & 0xF) == 3)
         if not okk:
             viol.add('unexpected_delivery', '%s: originator listener got len=%d' % (what, len(d[4])), **tag)
-    v0 = len(viol)
+    # a transfer that completes cleanly un-pre-empted must not end with a connection abort from either side under pre-emption
+    if not case['mode'].startswith('x_'):
+        from checks.c06 import is_abort
+        ab = [f for f in W.bus.frames if is_abort(f, layer == 'j1939-22')]
+        if ab:
+            viol.add('spurious_abort', '%s: connection abort on the bus for a transfer that was delivered (%s; pre-empted at %s)' % (what, ab[0].brief(), locs),
+                     role=case.get('role', 'both'), **tag)
     M.m_quiet(viol, W, layer, what='8 s after the transfer (%s, pre-empted at %s)' % (what, locs))
     M.m_live(viol, W, layer)
 
